@@ -196,6 +196,32 @@ pub fn run(sim: &Sim, _idx: u64) {
                 muts.push("replace-with-random".into());
                 sim.fault("mut-random-bytes");
             }
+            7 => {
+                // a well-formed frame (flag 1) whose payload is a *forged container header*: the
+                // fields a decompressor trusts for sizing (zstd frame content size, gzip ISIZE,
+                // zlib header) say whatever the peer likes
+                let declared: u64 = sim.pick(&[u64::MAX, 1 << 62, 1 << 40, 1 << 31, 0, 1]);
+                let mut payload: Vec<u8> = match sim.draw(3) {
+                    0 => {
+                        // zstd: magic, frame header descriptor 0xE0 (8-byte content size, single segment), size
+                        let mut p = vec![0x28, 0xb5, 0x2f, 0xfd, 0xe0];
+                        p.extend_from_slice(&declared.to_le_bytes());
+                        p
+                    }
+                    1 => {
+                        // gzip: header, an empty stored deflate block, CRC32, ISIZE
+                        let mut p = vec![0x1f, 0x8b, 0x08, 0, 0, 0, 0, 0, 0, 0x03, 0x01, 0x00, 0x00, 0xff, 0xff, 0, 0, 0, 0];
+                        p.extend_from_slice(&(declared as u32).to_le_bytes());
+                        p
+                    }
+                    _ => vec![0x78, 0x9c],
+                };
+                payload.extend(sim.bytes(sim.range(0, 12) as usize));
+                starts.push(data.len());
+                data.extend(indep::frame(1, &payload));
+                muts.push(format!("forged-container-header declaring {declared}"));
+                sim.fault("mut-forged-container-header");
+            }
             _ => {}
         }
     }
